@@ -8,6 +8,7 @@ included.  Strategies: `All` (vector form), `AllTuple` (tuple form), `Join`, eac
 Helper lemmas and the inductive invariants are in Proofs/When*.lean.
 -/
 import YaclibModel.Proofs.WhenSpec
+import YaclibModel.Proofs.WhenNodes
 import YaclibModel.Extracted.Kernels
 import YaclibModel.Model.Skeletons
 
@@ -156,6 +157,93 @@ theorem empty_is_invalid (hn : w.n = 0) (h : Reachable w s) : s = init w ∧ s.o
   | init => exact ⟨rfl, rfl, fun l s' hs => no_step_of_empty (inv_init w) hn hs⟩
   | step hr hs ih => exact absurd hs (ih.2.2 _ _)
 
+/-- the input whose consumption (or registration) a step belongs to -/
+def actor : Label → Nat
+  | .regSet i _ | .fire i | .retire i | .loadFlag i _ | .xchgFlag i _ | .load3 i _ | .xchg3 i _ | .cas3 i _ | .loadLf i _
+  | .xchgLf i _ | .fsubLf i _ | .setOut i _ | .dec i _ | .dtorRel i _ | .dtorSet i _ | .dtorThrow i | .crash i => i
+
+/-- no use after free: whenever a step touches the combinator (its callbacks, its strategy, its counter), the combinator
+    still has a reference — the acting input's own — and no destructor has started, or the step IS the destructor's -/
+theorem combinator_touched_only_while_alive (hwf : w.wf) (h : Reachable w s) {l : Label} {s' : State} (hs : Step w s l s') :
+    (0 < s.count ∧ s.dt = none) ∨ s.dt = some (actor l) := by
+  have hC := (inv_reachable hwf h).c
+  have alive : ∀ i, holding (s.pc i) = true → i < w.n → 0 < s.count ∧ s.dt = none := by
+    intro i hh hi
+    have hpos : 0 < s.count := by rw [hC.count]; exact cnt_pos (p := fun j => holding (s.pc j)) hi hh
+    refine ⟨hpos, ?_⟩
+    cases hd : s.dt with
+    | none => rfl
+    | some k => have := hC.dt_cnt (by rw [hd]; simp); omega
+  have byPc : ∀ i, s.pc i ≠ .unreg → s.pc i ≠ .done → (0 < s.count ∧ s.dt = none) ∨ s.dt = some i := by
+    intro i hne hnd
+    cases hh : holding (s.pc i) with
+    | true => exact Or.inl (alive i hh (hC.idx hne))
+    | false =>
+        cases hd : inDtor (s.pc i) with
+        | true => exact Or.inr (hC.dtor_dt i hd)
+        | false => exact absurd (done_of_not_holding hh hd) hnd
+  cases hs with
+  | regSet i okb hc hb hr hn =>
+      exact Or.inl (alive i (by rw [(hC.unreg i).mpr (by omega)]; rfl) hn)
+  | fire i hc hp => exact byPc i (by rw [hp]; simp) (by rw [hp]; simp)
+  | retire i hc hp => exact byPc i (by rw [hp]; simp) (by rw [hp]; simp)
+  | loadFlag i b hc hp hs hb => exact byPc i (by rw [hp]; simp) (by rw [hp]; simp)
+  | xchgFlag i hc hp hs => exact byPc i (by rw [hp]; simp) (by rw [hp]; simp)
+  | setOut i o hc hp => exact byPc i (by rw [hp]; simp) (by rw [hp]; simp)
+  | load3 i x hc hp hs hx => exact byPc i (by rw [hp]; simp) (by rw [hp]; simp)
+  | xchg3 i hc hp hs hv => exact byPc i (by rw [hp]; simp) (by rw [hp]; simp)
+  | cas3 i hc hp hs hv => exact byPc i (by rw [hp]; simp) (by rw [hp]; simp)
+  | loadLf i d hc hp hs hd => exact byPc i (by rw [hp]; simp) (by rw [hp]; simp)
+  | xchgLf i hc hp hs hv => exact byPc i (by rw [hp]; simp) (by rw [hp]; simp)
+  | fsubLf i hc hp hs hv => exact byPc i (by rw [hp]; simp) (by rw [hp]; simp)
+  | dec i store hc hp => exact byPc i (by rw [hp]; simp) (by rw [hp]; simp)
+  | dtorRel i j hc hp => exact byPc i (by rw [hp]; simp) (by rw [hp]; simp)
+  | dtorSet i o hc hp ho => exact byPc i (by rw [hp]; simp) (by rw [hp]; simp)
+  | dtorThrow i hc hp ho => exact byPc i (by rw [hp]; simp) (by rw [hp]; simp)
+  | crash i hc hp => rcases hp with hp | hp <;> exact byPc i (by rw [hp]; simp) (by rw [hp]; simp)
+
+/-- the registration loop reads the combinator (`Register`, the address of the callback node) only for an input it has not
+    registered yet, i.e. while that input's reference is still there -/
+theorem registration_touches_live_combinator (hwf : w.wf) (h : Reachable w s) {i : Nat} {okb : Bool} {s' : State}
+    (hs : Step w s (.regSet i okb) s') : 0 < s.count ∧ s.dt = none := by
+  rcases combinator_touched_only_while_alive hwf h hs with h1 | h1
+  · exact h1
+  · exfalso
+    have hC := (inv_reachable hwf h).c
+    cases hs with
+    | regSet _ _ hc hb hr hn =>
+        have hp := (hC.unreg i).mpr (by omega)
+        have := hC.dt_pc i h1
+        rw [hp] at this; cases this
+
+/-- … and after the last `SetCallback` the registering thread takes no further step on the combinator: from then on the
+    last reference may be dropped by any completing thread (the loops of `Set` continue on locals only:
+    `tie_DynamicCombinator_Set`, `tie_SingleCombinator_Set`, `tie_StaticCombinator_SetImpl`) -/
+theorem registration_over_after_last_input (hr : s.reg = w.n) : ∀ i okb s', ¬ Step w s (.regSet i okb) s' := by
+  intro i okb s' hs
+  cases hs with
+  | regSet _ _ hc hb hr' hn => omega
+
+/-! ### callback nodes of the variadic form (Model/WhenNodes.lean): the assumption behind "input i's callback is entered
+exactly once" for shared inputs — a SharedCore threads its subscriber list through the callback object -/
+
+/-- `translate_index_v<i, Cores, SharedCores>` is the number of shared cores before position i … -/
+theorem translate_index_is_rank (cores : List Nodes.CoreTy) (i : Nat) :
+    Nodes.translateIndex i 0 cores (Nodes.sharedCores cores) = Nodes.rank cores i := Nodes.translate_rank cores i
+
+/-- … hence two different shared inputs never share a callback node (ordered or unordered strategy, any mix of types),
+    and the node exists in `callbacks.shared_tuple` -/
+theorem shared_inputs_have_own_callback_node (ordered : Bool) (cores : List Nodes.CoreTy) {i j : Nat} {ci cj : Nodes.CoreTy}
+    (hne : i ≠ j) (hi : cores[i]? = some ci) (hj : cores[j]? = some cj) (hsi : ci.shared = true) (hsj : cj.shared = true) :
+    Nodes.staticNode ordered cores i ≠ Nodes.staticNode ordered cores j ∧
+    ∃ k, Nodes.staticNode false cores i = .shared k ∧ k < (Nodes.sharedCores cores).length :=
+  ⟨Nodes.shared_inputs_have_own_node ordered cores hne hi hj hsi hsj, Nodes.shared_node_exists cores hi hsi⟩
+
+/-- looking a shared input's node up by core type (the way unique inputs do) would give two same-typed shared inputs ONE node -/
+theorem node_lookup_by_type_violated_witness :
+    Nodes.staticNodeByType [⟨true, 0⟩, ⟨true, 0⟩] 0 = Nodes.staticNodeByType [⟨true, 0⟩, ⟨true, 0⟩] 1 :=
+  Nodes.lookup_by_type_shares_a_node.1
+
 /-- everything the trace validator accepts is a behaviour the theorems speak about -/
 theorem validator_sound {l : Label} {s' : State} (h : Reachable w s) (hn : next w s l = some s') : Reachable w s' :=
   .step h (next_sound hn)
@@ -290,5 +378,27 @@ theorem tie_WhenAll_front : Extracted.Kernels.WhenAll_front = Skeletons.WhenAll_
 theorem tie_Join_front : Extracted.Kernels.Join_front = Skeletons.Join_front := rfl
 theorem tie_AtomicCounter_SubEqual : Extracted.Kernels.AtomicCounter_SubEqual = Skeletons.AtomicCounter_SubEqual := rfl
 theorem tie_Helper_DecRef : Extracted.Kernels.Helper_DecRef = Skeletons.Helper_DecRef := rfl
+theorem tie_GetCallbackHelper :
+    Extracted.Kernels.When_StaticCombinator_GetCallbackHelper = Skeletons.When_StaticCombinator_GetCallbackHelper := rfl
+theorem tie_StaticCombinator_InitImpl :
+    Extracted.Kernels.When_StaticCombinator_InitImpl = Skeletons.When_StaticCombinator_InitImpl := rfl
+theorem tie_CombinatorCallback_Here : Extracted.Kernels.When_CombinatorCallback_Here = Skeletons.When_CombinatorCallback_Here := rfl
+theorem tie_SingleCombinator_Here : Extracted.Kernels.When_SingleCombinator_Here = Skeletons.When_SingleCombinator_Here := rfl
+theorem tie_TranslateIndexImpl_Index :
+    Extracted.Kernels.TypeTraits_TranslateIndexImpl_Index = Skeletons.TypeTraits_TranslateIndexImpl_Index := rfl
+theorem tie_IndexOf_Index : Extracted.Kernels.TypeTraits_IndexOf_Index = Skeletons.TypeTraits_IndexOf_Index := rfl
+/-! whole-declaration source ties (comments and white space dropped): policy constants, callback tuples and node lookup
+    (`translate_index_v` vs `index_of_v`), the alias that selects the combinator type, member initialisers, metafunctions -/
+theorem tie_src_when_hpp : Extracted.Kernels.WhenSrc_when_hpp = Skeletons.WhenSrc_when_hpp := rfl
+theorem tie_src_combinator_strategy_hpp :
+    Extracted.Kernels.WhenSrc_combinator_strategy_hpp = Skeletons.WhenSrc_combinator_strategy_hpp := rfl
+theorem tie_src_fail_policy_hpp : Extracted.Kernels.WhenSrc_fail_policy_hpp = Skeletons.WhenSrc_fail_policy_hpp := rfl
+theorem tie_src_type_traits_inputs : Extracted.Kernels.WhenSrc_type_traits_inputs = Skeletons.WhenSrc_type_traits_inputs := rfl
+theorem tie_src_type_traits_tuples : Extracted.Kernels.WhenSrc_type_traits_tuples = Skeletons.WhenSrc_type_traits_tuples := rfl
+theorem tie_src_all_hpp : Extracted.Kernels.WhenSrc_all_hpp = Skeletons.WhenSrc_all_hpp := rfl
+theorem tie_src_all_tuple_hpp : Extracted.Kernels.WhenSrc_all_tuple_hpp = Skeletons.WhenSrc_all_tuple_hpp := rfl
+theorem tie_src_join_hpp : Extracted.Kernels.WhenSrc_join_hpp = Skeletons.WhenSrc_join_hpp := rfl
+theorem tie_src_when_all_hpp : Extracted.Kernels.WhenSrc_when_all_hpp = Skeletons.WhenSrc_when_all_hpp := rfl
+theorem tie_src_async_join_hpp : Extracted.Kernels.WhenSrc_async_join_hpp = Skeletons.WhenSrc_async_join_hpp := rfl
 
 end Yaclib.Props.C09.Tie
